@@ -19,21 +19,29 @@ META = {
         "pairs on the real code"
     ),
     "level_text": (
-        "Proved for ALL line lists (induction, no size bound), about the code WITH the C07-F3..F6 repairs. "
-        "C07_ingest_complete / C07_atom_fields: under the executable guard G1 (every ATOM/HETATM/MODEL line starts "
-        "in column 1 and is read by the column parser) + two DESIGN guards (G2 blank-chain lettering inert: no TER "
-        "or no blank chain on a non-water record; G5 no two alias names of one atom in a residue) the source lines "
-        "of the atoms of the model's Biomolecule are a permutation of the independent column read cols_read (first "
-        "model, first listed per chain/resSeq/iCode/name, wherever the records sit) and each atom carries its "
-        "line's serial, chain, resSeq, iCode and coordinate text. The former guards G3 (pending residue at the 2nd "
-        "MODEL), G4 (identities only inside one residue run) and the fused-serial guard are gone: "
-        "C07_later_models_ignored holds under G1+G2 and C07_drop_water_iff under G1 alone, for all line lists. "
-        "Blank-line, unknown-record, line-ending/trailing-blank and trailing-column invariance are unconditional "
-        "equalities of the model. STILL GUARDED, honestly: G2 is kept although the C07-F6 collision is repaired (its "
-        "old witness is now a passing regression case, C07_regressions) because the raw-column identity of cols_read "
-        "cannot express 'blank chain of a TER segment'; C07_blank_chain_segments_refuted / C07_alias_names_refuted "
-        "show G2/G5 cannot be dropped (behaviour by design). With blank chains + TER, and outside G1, behaviour is "
-        "explored by the segment-aware oracle and the correspondence, not proved."
+        "Proved for ALL line lists (induction, no size bound), about the code with the C07-F1..F8 repairs. "
+        "(1) C07_loud_or_complete / C07_atom_fields_all_lines: for every list of readline() chunks, under the two "
+        "DESIGN guards only (G2 blank-chain lettering inert, G5 no two alias names of one atom in a residue), the read "
+        "either fails with ValueError - exactly when some coordinate line raises in its parser - or the atoms of the "
+        "Biomolecule are exactly cols_read2: coordinate lines (record name of the STRIPPED line: leading blanks/tabs do "
+        "not matter, lower-case or fused names are unknown records) in front of the second MODEL line, first listed per "
+        "chain/resSeq/iCode/name, each read by fixed columns from the line itself or, when it has <= 26 (ATOM) / <= 16 "
+        "(HETATM) characters, from the line pdb.read_atom rebuilds (one definition shared by model and specification; "
+        "the harness's slicer implements it independently). Nothing is dropped silently (C07_coordinate_line_cases, "
+        "C07_read_total). C07_later_models_ignored_all_lines (G2) and C07_drop_water_iff_all_lines (no guard) hold for "
+        "all line lists that do not fail loudly. "
+        "(2) C07_other_records_exact / C07_other_records_irrelevant: with the behaviour of the ~50 other record parsers "
+        "explicit as an arbitrary oracle (raise -> name on errlist -> later records OF THAT NAME suppressed), for EVERY "
+        "oracle the result equals that of the model that ignores them, and inserting any line that is neither a "
+        "coordinate record nor TER/END/MODEL - parsable or not, known name or not - changes nothing: errlist "
+        "suppression is an exact name match and never holds ATOM/HETATM/TER/END/MODEL. "
+        "(3) Cut positions of a coordinate line, all lines: k >= 54 unchanged; 46..54 only z changes, silently "
+        "(C07_cut_inside_z) or ValueError; 27..46 always ValueError; HETATM 17..26 ValueError; shorter: fallback or "
+        "ValueError. (4) Kept: C07_ingest_complete/atom_fields/later_models_ignored/drop_water_iff under the old "
+        "column guard G1, the four unconditional invariance theorems, regressions of F3..F8. "
+        "NOT proved: G2 stays a guard (raw-column identity cannot express TER-segment chains; covered by the "
+        "segment-aware oracle); that the real other-record parsers raise only KeyError/ValueError/IndexError is checked "
+        "each run, not proved; text of exceptions; non-ASCII input."
     ),
     "level_note": (
         "Trusted: Coq kernel+vm_compute; the hand model (tied by exact comparison of exception class or "
@@ -57,6 +65,19 @@ THEOREMS = [
     "C07_blank_chain_segments_refuted",
     "C07_alias_names_refuted",
     "C07_nonvacuous",
+    "C07_loud_or_complete",
+    "C07_atom_fields_all_lines",
+    "C07_coordinate_line_cases",
+    "C07_read_total",
+    "C07_later_models_ignored_all_lines",
+    "C07_drop_water_iff_all_lines",
+    "C07_other_records_exact",
+    "C07_other_records_irrelevant",
+    "C07_all_lines_regressions",
+    "C07_cut_before_z",
+    "C07_cut_inside_z",
+    "C07_cut_hetatm_short",
+    "C07_nonvacuous_all_lines",
 ]
 ALLOWED_AXIOMS = []
 
@@ -324,6 +345,41 @@ OTHER_LINES = [
     "TITLE     A TITLE",
     "JRNL        AUTH   A.B.C",
 ]
+# lines of OTHER record classes whose parsers raise ValueError (the record name goes
+# on read_pdb's errlist) or IndexError; names that are prefixes of ATOM / HETATM included
+BAD_OTHER_LINES = [
+    "HET    SO4  A 101           SULFATE",
+    "HET    NAP  A 324           NADP",
+    "HET    SO4",
+    "SSBOND   x CYS A    3    CYS A   40",
+    "CONECT  abc  def",
+    "CRYST1   55.600   xx.300   80.800  90.00  90.00  90.00 P 21 21 21    8",
+    "SEQRES   x A    2  ALA GLY",
+    "HELIX    x   1 ALA A    2  GLY A    9  1",
+    "SHEET    x   A 2 ALA A   2  GLY A   9  0",
+    "ANISOU    x  N   MET A   1     4836   4722   4703    -23    -40     13       N",
+    "MASTER      xxx    0    3   30   18    0   13    6 5356    2  110   50",
+    "LINK         ZN    ZN A 301                 NE2 HIS A  9x",
+    "SITE     x AC1  3 HIS A  94",
+    "SCALE1      0.017986  x.000000  0.000000        0.00000",
+    "MODRES 1ABC MSE A   xx  MET  SELENOMETHIONINE",
+    "FORMUL   x  SO4    O4 S 2-",
+    "SIGATM    x  N   HOH A   1       0.001   0.001   0.001  0.00  0.00           N",
+    "DBREF  1ABC A    x   100  UNP    P00000   ABC_HUMAN        1    100",
+    "HYDBND      N   ALA A   x",
+    "A",
+    "AT",
+    "ATO",
+    "H",
+    "HET",
+    "HETA  1",
+    "HETAT",
+    "T",
+    "E",
+    "EN",
+    "M",
+    "MODE",
+]
 UNKNOWN_LINES = ["FOO", "ATOMS  BAD", "HETATMX   1", "REMARKS", "END1", "MODELS", "TERx", "atom      1  N   ALA A   1", "X", "ENDMDLx", "#comment", "12345 6789"]
 
 
@@ -430,6 +486,13 @@ def gen_structured(rng, k):
             feats.add("model-style:" + style)
         for m in range(nmod):
             mb = body if m == 0 else [l[:30] + f"{coord(rng):>8}" + l[38:] if l[:6].strip() in ("ATOM", "HETATM") else l for l in body[: rng.choice([len(body), max(1, len(body) // 2)])]]
+            if m > 0:
+                # later models carry their own serial numbers (the oracle tells atoms apart by serial)
+                mb = [l[:6] + f"{(int(l[6:11]) + 20000 * m) % 100000:>5}" + l[11:] if l[:6].strip() in ("ATOM", "HETATM") and l[6:11].strip().isdigit() else l for l in mb]
+                if rng.random() < 0.5:
+                    # ... and sometimes other residue numbers, so that a leaked later model shows
+                    mb = [l[:22] + f"{int(l[22:26]) + 50:>4}" + l[26:] if l[:6].strip() in ("ATOM", "HETATM") and l[22:26].strip().lstrip("-").isdigit() and int(l[22:26]) < 9900 else l for l in mb]
+                    feats.add("later-model-renumbered")
             if style == "atoms-before" and m == 0:
                 lines += mb[:1]
                 mb = mb[1:]
@@ -461,6 +524,10 @@ def gen_structured(rng, k):
     for _ in range(rng.choice([0, 0, 0, 1, 2])):
         lines.insert(rng.randrange(len(lines) + 1), rng.choice(UNKNOWN_LINES))
         feats.add("unknown-records")
+    for _ in range(rng.choice([0, 0, 1, 1, 2])):
+        # a record of another class that its parser rejects, in front of / among the coordinate records
+        lines.insert(rng.choice([0, 0, rng.randrange(len(lines) + 1)]), rng.choice(BAD_OTHER_LINES))
+        feats.add("failing-other-records")
     for _ in range(rng.choice([0, 0, 1, 1, 3])):
         lines.insert(rng.randrange(len(lines) + 1), rng.choice(["", "", "   ", "\t", " " * 80]))
         feats.add("blank-lines")
@@ -509,9 +576,9 @@ def gen_malformed(rng, k):
         lines.pop()
     idx = [i for i, l in enumerate(lines) if l[:6].strip() in ("ATOM", "HETATM")]
     feats = set(base["feats"])
-    kind = rng.choice(["int-serial", "int-resseq", "float", "short", "ws-format", "leading-blank", "model-serial", "long-resname", "tab", "bare", "recname", "many-ter", "fused"])
+    kind = rng.choice(["int-serial", "int-resseq", "float", "short", "ws-format", "leading-blank", "model-serial", "long-resname", "tab", "bare", "recname", "many-ter", "fused", "cut-any", "cut-any", "lead-all", "fallback", "lowercase", "other-bad", "other-bad"])
     feats.add("malformed:" + kind)
-    if not idx and kind not in ("model-serial", "many-ter"):
+    if not idx and kind not in ("model-serial", "many-ter", "lead-all", "fallback", "other-bad"):
         kind = "bare"
     i = rng.choice(idx) if idx else 0
     if kind == "int-serial":
@@ -557,6 +624,42 @@ def gen_malformed(rng, k):
         lines = lines[:8]
         at = fmt_atom("ATOM", 1, "N", "", "ALA", "", 1, "", "1.000", "2.000", "3.000")
         lines = lines + ["TER"] * n + [at]
+    elif kind == "cut-any":
+        # every cut position of a coordinate line (0..80), sometimes padded with blanks again
+        k = rng.randrange(0, 81)
+        lines[i] = lines[i][:k] + rng.choice(["", "", " ", "    "])
+        feats.add("cut@" + ("<=16" if k <= 16 else "17-26" if k <= 26 else "27-46" if k <= 46 else "47-53" if k <= 53 else ">=54"))
+    elif kind == "lead-all":
+        # leading blanks / tabs in front of every line (bookkeeping records included)
+        lead = rng.choice([" ", "  ", "\t", "      ", " \t "])
+        lines = [(lead if rng.random() < 0.8 else "") + l for l in lines]
+    elif kind == "fallback":
+        # lines short enough for pdb.read_atom's whitespace fallback (<= 26 / <= 16 columns)
+        ser = rng.choice([7, 12, 300])
+        cand = [
+            f"ATOM  {ser:>5} 1 2 3 4 5",
+            f"ATOM  {ser:>5} 1 2 3 4 5 6",
+            f"ATOM  {ser:>5} 1 2 3 4 5   6",
+            f"ATOM  {ser:>5} 9 1 2 3 4 x",
+            f"ATOM  {ser:>5} N 1 2 3 4 5",
+            f"ATOM  {ser:>5}  N   ALA A   1",
+            f"ATOM  {ser:>5}  N   ALA A",
+            f"ATOM  {ser:>5}",
+            f"HETATM{ser:>5} 1 2 3",
+            f"HETATM{ser:>5}",
+            f"HETATM{ser:>5}  ZN   ZN A  55",
+            f"ATOM  {ser:>5} 1 2 3 4 nan",
+            f"ATOM  {ser:>5} 1e1 2 3 4 5",
+        ]
+        lines.insert(rng.randrange(len(lines) + 1), rng.choice(cand))
+    elif kind == "lowercase":
+        lines[i] = rng.choice([lines[i][:6].lower() + lines[i][6:], lines[i][:6].capitalize() + lines[i][6:]])
+        j = rng.randrange(len(lines))
+        if lines[j][:6].strip() in ("TER", "END", "MODEL", "ENDMDL"):
+            lines[j] = lines[j].lower()
+    elif kind == "other-bad":
+        for _ in range(rng.choice([1, 2, 3])):
+            lines.insert(rng.choice([0, rng.randrange(len(lines) + 1)]), rng.choice(BAD_OTHER_LINES))
     elif kind == "fused":
         lines[i] = lines[i][:6] + rng.choice(["12345", "99999", "1234A"]) + lines[i][11:]
     text = "".join(l + "\n" for l in lines)
@@ -621,51 +724,113 @@ def raw_lines(text):
 LETTERS = "ABCDEFGHIJKLMNOPQRSTUVWXYZabcdefghijklmnopqrstuvwxyz0123456789"
 
 
+def _isnum(w):
+    try:
+        float(w)
+        return True
+    except ValueError:
+        return False
+
+
+def rebuilt_line(s):
+    """The fixed-column line pdb.read_atom documents, written independently of the
+    model: among the words after the first, take the rightmost run of at least
+    five consecutive numbers; its last five words are x y z occupancy tempfactor,
+    the word in front of them is the residue number; columns 1-22 are kept.
+    None when there is no such run."""
+    words = s.split()
+    j = len(words) - 1
+    while j >= 1:
+        if not _isnum(words[j]):
+            j -= 1
+            continue
+        i = j
+        while i - 1 >= 1 and _isnum(words[i - 1]):
+            i -= 1
+        if j - i + 1 >= 5:
+            w = words[j - 5 : j + 1]
+            return s[0:22] + w[0].rjust(4) + "   " + w[1].rjust(8) + w[2].rjust(8) + w[3].rjust(8) + w[4].rjust(6) + w[5].rjust(6)
+        j = i - 1
+    return None
+
+
+def classify_line(l):
+    """G1' semantics of ONE line, independent of the model.  Returns (rec, cls, d):
+    rec = record name of columns 1-6 of the stripped line; for ATOM/HETATM cls is
+    'ok' (d = fields read by fixed columns from the line itself, or from the
+    rebuilt line when the line is too short for the column reader) or 'raise' (the
+    reader fails with ValueError; also: too short and no five numbers)."""
+    s = l.strip()
+    rec = s[0:6].strip()
+    if rec not in ("ATOM", "HETATM"):
+        return rec, None, None
+    het = rec == "HETATM"
+    t = s
+    if len(s) <= (16 if het else 26):
+        # the column reader runs out of columns; before that it has converted the
+        # serial, and (ATOM, >= 22 columns) the residue number
+        try:
+            int(s[6:11])
+            if not het and len(s) >= 22:
+                int(s[22:26])
+        except ValueError:
+            return rec, "raise", None
+        t = rebuilt_line(s)
+        if t is None:
+            return rec, "raise", None  # no coordinates at all: the read fails (bd8c339)
+    try:
+        d = {
+            "rec": rec,
+            "serial": int(t[6:11]),
+            "name": t[12:16].strip(),
+            "alt": t[16:17].strip(),
+            "resn": t[17:20].strip(),
+            "chain": t[21:22].strip(),
+            "seq": int(t[22:26]),
+            "ic": t[26:27].strip(),
+            "x": float(t[30:38]),
+            "y": float(t[38:46]),
+            "z": float(t[46:54]),
+            "tok0": rec,
+            "fallback": t is not s,
+        }
+    except ValueError:
+        return rec, "raise", None
+    return rec, "ok", d
+
+
 def slicer(text):
-    """First model (lines in front of the second MODEL record), ATOM/HETATM by
-    fixed columns, one per (chain, resSeq, iCode, name), first listed.  A blank
-    chain identifier of a non-water record in a file with TER records denotes
-    the chain of its TER-delimited segment (two blank-chain records in different
-    segments are different identities).
-    Returns (kept, all_first_model, later) lists of dicts, or None when a
-    coordinate line cannot be read by columns (outside the oracle's domain)."""
-    kept, seen, first, later = [], {}, [], []
+    """The independent read with G1' semantics.  First model = lines in front of
+    the second MODEL line (record names are those of the STRIPPED lines);
+    ATOM/HETATM read by fixed columns (classify_line), one per (chain, resSeq,
+    iCode, name), first listed.  A blank chain identifier of a non-water record in
+    a file with TER records denotes the chain of its TER-delimited segment.
+    Returns a dict: kept, first, later (lists of field dicts), raises (line numbers
+    of coordinate lines on which the reader raises ValueError), drops (line numbers
+    of first-model coordinate lines without coordinates), bad_models (MODEL lines
+    whose columns 11-14 hold no integer)."""
+    kept, seen, first, later, raises, drops, drops_later, bad_models = [], {}, [], [], [], [], [], []
     nmodel = 0
     lines = raw_lines(text)
-    nter = sum(1 for l in lines if l[0:6].strip() == "TER")
+    cls = [classify_line(l) for l in lines]
+    nter = sum(1 for rec, _, _ in cls if rec == "TER")
     seg = 0
-    for n, l in enumerate(lines):
-        rec = l[0:6].strip()
-        if l[:1].isspace() and l.strip()[0:6].strip() in ("ATOM", "HETATM", "MODEL"):
-            return None  # the code strips the line first: columns are not the file's columns
+    for n, (l, (rec, c, d)) in enumerate(zip(lines, cls)):
         if rec == "TER":
             seg += 1
             continue
         if rec == "MODEL":
-            nmodel += 1
+            nmodel += 1  # every MODEL line separates models, whatever follows the name (04a78e7)
             continue
-        if rec not in ("ATOM", "HETATM"):
+        if c is None:
             continue
-        try:
-            d = {
-                "line": n,
-                "rec": rec,
-                "serial": int(l[6:11]),
-                "name": l[12:16].strip(),
-                "alt": l[16:17].strip(),
-                "resn": l[17:20].strip(),
-                "chain": l[21:22].strip(),
-                "seq": int(l[22:26]),
-                "ic": l[26:27].strip(),
-                "x": float(l[30:38]),
-                "y": float(l[38:46]),
-                "z": float(l[46:54]),
-                "tok0": l.split()[0],
-            }
-        except ValueError:
-            return None
-        if len(l.rstrip()) < 54 or l[:1].isspace():
-            return None
+        if c == "raise":
+            raises.append(n)
+            continue
+        if c == "drop":
+            (drops if nmodel < 2 else drops_later).append(n)
+            continue
+        d["line"] = n
         lettered = nter > 0 and d["chain"] == "" and d["resn"] not in ("HOH", "WAT")
         d["segchain"] = ("", seg) if lettered else d["chain"]
         d["codechain"] = (LETTERS[seg] if seg < len(LETTERS) else None) if lettered else d["chain"]
@@ -679,16 +844,16 @@ def slicer(text):
             continue
         seen[key] = d
         kept.append(d)
-    return kept, first, later
+    return {"kept": kept, "first": first, "later": later, "raises": raises, "drops": drops, "drops_later": drops_later, "bad_models": bad_models}
 
 
 def structure_events(text):
     """Sequence of relevant record kinds with line numbers (for diagnosis)."""
     ev = []
     for n, l in enumerate(raw_lines(text)):
-        rec = l[0:6].strip()
+        rec = l.strip()[0:6].strip()
         if rec in ("ATOM", "HETATM", "TER", "END", "MODEL", "ENDMDL"):
-            ev.append((rec, n, l))
+            ev.append((rec, n, l.strip()))
     return ev
 
 
@@ -712,7 +877,7 @@ def second_model_pending_empty(ev):
 KNOWN_CONDITIONS = ("MODEL-with-empty-pending-residue", "same-identity-in-separate-residue-runs", "blank-chain-lettering-collision")
 
 
-def diagnose(text, kept, first, later, got_serials):
+def diagnose(text, kept, first, later, got_serials, bad_models=()):
     """Deterministic classification of a mismatch between the slicer and the
     real Biomolecule into a signature.  Every discrepant record is classified on
     its own; a discrepancy that none of the known mechanisms explains decides the
@@ -728,7 +893,10 @@ def diagnose(text, kept, first, later, got_serials):
     conds = []
     for s in sorted(extra):
         if s in later_serials:
-            conds.append("MODEL-with-empty-pending-residue" if second_model_pending_empty(ev) else "later-model-ingested")
+            if bad_models:
+                conds.append("MODEL-record-dropped-unparsable-serial")
+            else:
+                conds.append("MODEL-with-empty-pending-residue" if second_model_pending_empty(ev) else "later-model-ingested")
         elif s in byser:
             d = byser[s]
             k = keptby[d["key"]]
@@ -749,6 +917,8 @@ def diagnose(text, kept, first, later, got_serials):
     unknown = [c for c in conds if c not in KNOWN_CONDITIONS]
     cond = unknown[0] if unknown else conds[0]
     site = "pdb.read_pdb/Biomolecule.__init__" if cond == "record-lost" else "Biomolecule.__init__"
+    if cond == "MODEL-record-dropped-unparsable-serial":
+        site = "pdb.MODEL/read_pdb"
     return {"site": site, "condition": cond}
 
 
@@ -764,19 +934,12 @@ def oracle_case(ctx, case, tab):
     case was inside the oracle's domain."""
     text = case["text"]
     sl = slicer(text)
-    if sl is None:
-        ctx.count("oracle:outside-domain(unparseable coordinate line)")
-        return False
-    kept, first, later = sl
+    kept, first, later = sl["kept"], sl["first"], sl["later"]
     serials = [d["serial"] for d in first + later]
     if len(set(serials)) != len(serials):
         ctx.count("oracle:outside-domain(duplicate serials)")
         return False
     ev = structure_events(text)
-    bad_model = any(rec == "MODEL" and not re.fullmatch(r"\s*[+-]?\d+\s*", l[10:14]) for rec, _, l in ev)
-    if bad_model:
-        ctx.count("oracle:outside-domain(MODEL serial not in columns 11-14)")
-        return False
     # alias collisions (two names of one residue that are aliases of one atom) are outside
     byres = {}
     for d in first:
@@ -792,12 +955,29 @@ def oracle_case(ctx, case, tab):
         return False
     res = impl_ingest(text, False)
     nontrivial = len(kept) >= 2 and len(case["feats"]) >= 1
-    ctx.evaluated(("oracle", tuple(case["feats"]), len(kept), len(later) > 0), nontrivial)
+    ctx.evaluated(("oracle", tuple(case["feats"]), len(kept), len(later) > 0, bool(sl["raises"]), bool(sl["drops"])), nontrivial or bool(sl["raises"]))
+    if any(d.get("fallback") for d in first):
+        ctx.count("oracle:record-read-through-whitespace-fallback")
+    if sl["raises"]:
+        # loud: the run must fail with ValueError
+        ctx.count("oracle:expected-ValueError")
+        if res[0] == "EXC" and res[1] == "ValueError":
+            return True
+        ctx.fail(
+            {"site": "pdb.read_pdb", "condition": "unreadable-coordinate-line-accepted", "got": res[0] if res[0] == "OK" else res[1]},
+            f"coordinate line {sl['raises'][0]} cannot be read (ValueError expected) but the run gave {str(res)[:200]}",
+            {"text": text, "mode": "oracle"},
+        )
+        return True
+    if res[0] == "EXC" and res[1] == "ValueError" and (sl["drops"] or sl["drops_later"]):
+        # a coordinate line without coordinates fails the run: loud, which the property accepts
+        ctx.count("oracle:line-without-coordinates-fails-loudly")
+        return True
     if res[0] == "EXC":
         sig = {"site": "read_pdb/Biomolecule.__init__", "condition": "exception-on-readable-file", "exception": res[1]}
         if res[1] in ("IndexError", "AttributeError") and any(rec == "END" for rec, _, _ in ev):
             sig = {"site": "Biomolecule.__init__", "condition": "END-with-empty-residue"}
-        ctx.fail(sig, f"column-readable file raises {res[1]}: {res[2]}", {"text": text, "mode": "oracle"})
+        ctx.fail(sig, f"readable file raises {res[1]}: {res[2]}", {"text": text, "mode": "oracle"})
         return True
     got = [a for _, atoms in res[1] for a in atoms]
     got_serials = [a[1] for a in got]
@@ -818,8 +998,16 @@ def oracle_case(ctx, case, tab):
             elif a[5] != d["chain"]:
                 fields_ok = False
     if ok and fields_ok:
+        if sl["drops"]:
+            # every readable record is there, but a coordinate line without coordinates
+            # was passed over without failing the run (C07-F7)
+            ctx.fail(
+                {"site": "pdb.read_pdb", "condition": "coordinate-line-without-coordinates-skipped"},
+                f"ATOM/HETATM line {sl['drops'][0]} ({raw_lines(text)[sl['drops'][0]].strip()[:40]!r}) has no coordinates: it is skipped and the run succeeds",
+                {"text": text, "mode": "oracle"},
+            )
         return True
-    sig = diagnose(text, kept, first, later, set(got_serials)) if not ok else {"site": "Biomolecule.__init__", "condition": "field-mismatch"}
+    sig = diagnose(text, kept, first, later, set(got_serials), sl["bad_models"]) if not ok else {"site": "Biomolecule.__init__", "condition": "field-mismatch"}
     ctx.fail(
         sig,
         f"atoms of Biomolecule != independent column read: expected serials {sorted(exp)[:30]}, got {sorted(got_serials)[:30]}",
@@ -890,8 +1078,10 @@ def metamorphic(ctx, case, rng):
     # (d) trailing columns cut after the coordinates / padded
     cut = []
     for l in lines:
-        if l[:6].strip() in ("ATOM", "HETATM") and len(l.rstrip()) >= 54 and not l[53:54].isspace():
-            cut.append(l.rstrip("\r")[: rng.choice([54, 54, 60, 66])] + rng.choice(["", "  "]))
+        ls = l.lstrip()
+        lead = len(l) - len(ls)  # read_pdb strips the line: columns count from the first non-blank
+        if ls[:6].strip() in ("ATOM", "HETATM") and len(ls.rstrip()) >= 54 and not ls[53:54].isspace():
+            cut.append(l.rstrip("\r")[: lead + rng.choice([54, 54, 60, 66])] + rng.choice(["", "  "]))
         else:
             cut.append(l)
     v = "\n".join(cut + [trail])
@@ -911,14 +1101,17 @@ def metamorphic(ctx, case, rng):
             # a later model is being ingested (regression of C07-F3); its last residue is flushed only by END
             sig = {"site": "Biomolecule.__init__", "condition": "MODEL-with-empty-pending-residue"}
         fail("END-END", sig, v, o)
-    v = "\n".join(("TER" if l[:6].strip() == "TER" else l) for l in lines) + "\n" + trail
+    v = "\n".join(("TER" if l.strip()[:6].strip() == "TER" else l) for l in lines) + "\n" + trail
     o = impl_ingest(v, False)
     if not same_atoms(base, o):
         fail("TER-form", {"site": "Biomolecule.__init__", "condition": "TER-form-sensitive"}, v, o)
     # (f) --drop-water  ==  water lines deleted beforehand ; and waters kept without the flag
-    sl = slicer(text)
-    wl = [l for l in lines if l[:6].strip() in ("ATOM", "HETATM") and l[17:20].strip() in ("HOH", "WAT")]
-    if wl and sl is not None:
+    wl = []
+    for l in lines:
+        _rec, c, d = classify_line(l.rstrip("\r"))
+        if c == "ok" and d["resn"] in ("HOH", "WAT"):
+            wl.append(l)
+    if wl:
         v = "\n".join([l for l in lines if l not in wl] + [trail])
         o1 = impl_ingest(text, True)
         o2 = impl_ingest(v, False)
@@ -1046,8 +1239,11 @@ def run(ctx):
         "ligand, alias names), then mutated: chains (blank/repeated/interleaved), negative and 4-digit resSeq, iCodes, "
         "altlocs (inline and as trailing block), split/repeated residues, TER forms, END (none/1/2/first/middle), "
         "1-3 models in 8 layouts, other/unknown records, blank lines, CRLF, short and padded coordinate lines; a "
-        "malformed stream (13 kinds: bad int/float text, short lines, whitespace format, leading blanks, MODEL "
-        "serial, tabs, >61 TER ...). Oracle cases: texts whose coordinate lines are column-readable; non-trivial = "
+        "malformed stream (18 kinds: bad int/float text, every cut position 0..80 of a coordinate line, whitespace "
+        "format and lines that reach pdb.read_atom's fallback, leading blanks/tabs on one or on all lines, lower-case "
+        "record names, fused fields, MODEL serial forms, tabs, >61 TER ...). Oracle: ALL texts with unique serials - an "
+        "independent slicer with G1' semantics (stripped lines, column read or rebuilt line, raise/drop classes) gives "
+        "either 'ValueError expected' or the expected atoms; non-trivial = "
         ">= 2 expected atoms and >= 1 feature; distinct by (feature set, #expected atoms, later model present) and by "
         "metamorphic kind x feature set."
     )
